@@ -152,6 +152,19 @@ def x_tree(ctx, case):
         for c in it:
             collect(c, under_custom or is_custom)
     collect(s, False)
+    nested_customs = []   # custom suites living inside another custom suite, before anything is sorted
+
+    def collect_nested(obj, under_custom):
+        try:
+            it = list(iter(obj))
+        except TypeError:
+            return
+        is_custom = type(obj) is not unittest.TestSuite
+        if is_custom and under_custom:
+            nested_customs.append(obj)
+        for c in it:
+            collect_nested(c, under_custom or is_custom)
+    collect_nested(s, False)
     dup = len(set(L)) != len(L)
     try:
         st = sorted_tests(s)
@@ -191,27 +204,20 @@ def x_tree(ctx, case):
         ctx.check(ok_shape, "sorted.plain-flattened-custom-kept-whole",
                   lambda: {"top": [type(c).__name__ for c in top], **detail()})
         # custom suites nested inside other custom suites survive as the same objects, too
-        all_customs = {}
+        present = set()
 
-        def collect_all(obj):
+        def walk(obj):
             try:
                 it = list(iter(obj))
             except TypeError:
                 return
-            if type(obj) is not unittest.TestSuite:
-                all_customs[id(obj)] = obj
+            present.add(id(obj))
             for c in it:
-                collect_all(c)
-        present = {}
-        collect_all(st)
-        present, all_customs = all_customs, {}
-        collect_all(s)
-        missing = [type(o).__name__ for i, o in all_customs.items()
-                   if i not in present and _under_custom(s, o)]
+                walk(c)
+        walk(st)
+        missing = [type(o).__name__ for o in nested_customs if id(o) not in present]
         ctx.check(not missing, "sorted.plain-flattened-custom-kept-whole",
                   lambda: {"nested custom suites dissolved": missing, **detail()})
-        ctx.check(keys_pre == sorted(keys_pre) or keys_post == sorted(keys_post), "sorted.ordered-by-id",
-                  lambda: {"placement keys": keys_pre, "after inner sort": keys_post, **detail()})
         # the sorted suite can still be filtered (testtools.run discover --load-list does exactly that)
         try:
             f2 = filter_by_ids(st, keep)
